@@ -67,8 +67,12 @@ def E_prbm(p, V):
 
 
 def dict_np():
-    d = unitaries.create_dict()
-    return {k: v[0].numpy() + 1j * v[1].numpy() for k, v in d.items()}
+    """the three default basis-change matrices WRITTEN OUT here (second audit C03-4: taken from unitaries.create_dict() they fed both the
+    finite-difference oracle and the model, so a wrong default X / Y was invisible to C03 by construction): X = Hadamard,
+    Y = (1/sqrt 2) [[1, -i], [1, i]], Z = identity"""
+    r = 1.0 / np.sqrt(2.0)
+    return {"X": np.array([[r, r], [r, -r]], dtype=complex), "Y": np.array([[r, -1j * r], [r, 1j * r]], dtype=complex),
+            "Z": np.array([[1.0, 0.0], [0.0, 1.0]], dtype=complex)}
 
 
 def dense_K(basis, D):
@@ -305,6 +309,75 @@ def form_oracles(ctx, st, A, kind, case, S, B, nets, g, scale):
                sig="dm/paired-flag-forms", theorem="C03_single_sample_density / C03_pi_grad_branches_agree")
 
 
+# second audit C03-2: `gradient` documents `basis: numpy.ndarray or list[str] or None`.  For a BATCH the code at /repo HEAD accepts a 2-D char
+# array and a list of lists of letters, but raises IndexError for one basis STRING per sample (list[str], tuple of str, 1-D str ndarray):
+# proposed/F22_gradient_bases_list_of_str.{md,diff}.  Until the integrator applies the fix, a refusal of those forms is an informational
+# counter (set this to True afterwards: the refusal then is a failed call form); if a form is ACCEPTED its value must be the 2-D char
+# array's at property level in either case.
+LIST_STR_BATCH_REFUSAL_IS_VIOLATION = False
+
+
+def container_forms(ctx, st, kind, case, n, data, S, B, space_t, g, pp, ex, scale):
+    """the remaining call forms of the public gradient methods (oracles on the implementation alone)"""
+    N = len(data)
+    if kind == "pos":
+        # second audit C03-1 - SCOPE: a positive state is a reference-basis object (its `fit` takes no `input_bases`; its gradient methods
+        # document every extra argument as "Ignored"): the statement's "assignment of measurement bases" ranges over the two state types
+        # that can be trained on rotated data.  INFORMATIONAL probe: every positive method called WITH a rotated basis array, positionally
+        # and by keyword, returns what the call without it returns (counted, no verdict).
+        Brot = np.array([["XY"[(i + j) % 2] for j in range(n)] for i in range(N)])
+        try:
+            calls = [(g, st.gradient(S, Brot)), (g, st.gradient(S, bases=Brot)), (pp, st.positive_phase_gradients(S, Brot)),
+                     (pp, st.positive_phase_gradients(S, bases_batch=Brot)), (ex, st.compute_exact_grads(S, space_t, Brot)),
+                     (ex, st.compute_exact_grads(S, space_t, bases_batch=Brot)), (ex, st.compute_exact_gradients(S, space_t, Brot))]
+            same = all(len(w) == len(r) and all(_same(_np(x), _np(y), scale) for x, y in zip(r, w)) for w, r in calls)
+            ctx.count("pos/bases-ignored (informational): " + ("rotated bases ignored by all 7 call forms" if same else "some call form depends on the bases"))
+        except Exception as e:  # noqa: BLE001
+            ctx.count(f"pos/bases-ignored (informational): a call form with bases raised {type(e).__name__}")
+        return
+    # ---- batch container forms of `bases` (C03-2)
+    strings = [b for _, b in data]
+    forms = [("list of lists", [list(b) for b in strings], False), ("list[str]", list(strings), True), ("1-D str ndarray", np.array(strings), True)]
+    for fname, bform, stringrows in forms:
+        det = None
+        try:
+            got = [_np(t) for t in st.gradient(S, bform)]
+            okf = len(got) == len(g) and all(_same(x, y, scale, 1e-9) for x, y in zip(got, g))
+            ctx.count(f"bases of a batch as {fname}: accepted")
+        except Exception as e:  # noqa: BLE001
+            if stringrows and not LIST_STR_BATCH_REFUSAL_IS_VIOLATION:
+                ctx.count(f"bases of a batch as {fname}: refused with {type(e).__name__} (informational: proposed finding F22)")
+                continue
+            okf, det = False, {"exception": type(e).__name__, "message": str(e)[:200]}
+        ctx.oracle(f"gradient(samples, bases as {fname}) == gradient(samples, 2-D char array)", bool(okf), case, detail=det,
+                   sig=f"{kind}/bases-container", theorem=TH_SUM[kind])
+    # ---- C03-5: public rotated_gradient(basis, samples of that basis) == gradient(those samples, that basis per row); complex state: am_grads / ph_grads
+    rot = sorted({b for b in strings if any(ch != "Z" for ch in b)})
+    for b0 in rot[:2]:
+        rows = [k for k, b in enumerate(strings) if b == b0]
+        Sb = S[rows]
+        det = None
+        try:
+            rg = [_np(t) for t in st.rotated_gradient(np.array(list(b0)), Sb)]
+            gg = [_np(t) for t in st.gradient(Sb, np.array([list(b0)] * len(rows)))]
+            okr = len(rg) == 2 and all(_same(x, y, scale, 1e-9) for x, y in zip(rg, gg))
+        except Exception as e:  # noqa: BLE001
+            okr, det = False, {"exception": type(e).__name__, "message": str(e)[:200]}
+        ctx.oracle("rotated_gradient(basis, samples) == gradient(samples, [basis] * k)", bool(okr), {**case, "basis": b0}, detail=det,
+                   sig=f"{kind}/rotated-gradient-public", theorem=TH_ONE[kind])
+    if kind == "cplx":
+        det = None
+        try:
+            ea, ep = _np(st.rbm_am.effective_energy_gradient(S, reduce=False)), _np(st.rbm_ph.effective_energy_gradient(S, reduce=False))
+            ag, pg = _np(st.am_grads(S)), _np(st.ph_grads(S))
+            oka = (ag.shape == (2,) + ea.shape and _same(ag[0], ea, scale) and not np.any(ag[1])
+                   and pg.shape == (2,) + ep.shape and _same(pg[1], ep, scale) and _same(pg[0], 0 * ep, scale))
+        except Exception as e:  # noqa: BLE001
+            oka, det = False, {"exception": type(e).__name__, "message": str(e)[:200]}
+        ctx.oracle("am_grads(v) == (grad E_lambda(v), 0);  ph_grads(v) == i * grad E_mu(v)  (per sample)", bool(oka), case, detail=det,
+                   sig="cplx/am-ph-grads-public", theorem="C03_sample_gradient_complex")
+
+
 def one_case(ctx, case):
     """one case; integer options handed over as objects outside every quantifier (np.uint8, 0-d arrays / tensors) and REFUSED by the
     implementation are informational (argforms_a.tolerant, second audit X-1)"""
@@ -416,6 +489,7 @@ def _one_case(ctx, case):
             except Exception as e:  # noqa: BLE001
                 ok1, det = False, {"exception": type(e).__name__, "message": str(e)[:200]}
             ctx.oracle(f"1-D call form (basis as {fname}) == batch of one", bool(ok1), {**case, "row": k0}, detail=det, sig=f"{kind}/1d-{fname}", theorem=TH_ONE[kind])
+    container_forms(ctx, st, kind, case, n, data, S, B, space_t, g, pp, ex, scale)
     # bases=None on a complex / mixed state: the amplitude network's energy gradient and a ZERO TENSOR for the phase network,
     # i.e. what an all-Z basis array gives (the all-Z fast path)
     gn_impl = None
